@@ -84,6 +84,10 @@ PureConnect(m) == m.f.conn /\ ~m.f.close /\ ~m.f.hb /\ ~m.f.ack /\ ~m.f.rej
 PureClose(m)   == m.f.close /\ ~m.f.conn /\ ~m.f.hb /\ ~m.f.ack /\ ~m.f.rej
 PureData(m)    == ~m.f.conn /\ ~m.f.close /\ ~m.f.hb /\ ~m.f.ack /\ ~m.f.rej
 IsAck(m)       == m.f.ack
+\* the acknowledgement of OUR connect / close as the peer's hstrp_send_ack forms it (the request's type bit kept, ack set):
+\* seeing it is seeing the connect / close completed
+ConnectAck(m)  == m.f.conn /\ m.f.ack /\ ~m.f.close /\ ~m.f.hb /\ ~m.f.rej
+CloseAck(m)    == m.f.close /\ m.f.ack /\ ~m.f.conn /\ ~m.f.hb /\ ~m.f.rej
 IsHeartbeat(m) == m.f.hb /\ ~m.f.conn
 
 \* o = observation of one datagram_received call:
@@ -100,8 +104,8 @@ MonRecv(mon, m, o, preConnected) ==
         ELSE IF judged /\ IsAck(m) /\ Acks(o.sent) # {} THEN "AcksNotAnswered"
         ELSE IF Hbs(o.sent) # {} /\ ~preConnected THEN "HeartbeatOnlyWhenConnected"
         ELSE IF judged /\ Hbs(o.sent) # {} /\ ~m.f.hb THEN "HeartbeatOnlyEchoed"
-        ELSE IF judged /\ PureConnect(m) /\ ~o.connected THEN "ConnectedIsLastConnectClose"
-        ELSE IF judged /\ PureClose(m) /\ o.connected THEN "ConnectedIsLastConnectClose"
+        ELSE IF judged /\ (PureConnect(m) \/ ConnectAck(m)) /\ ~o.connected THEN "ConnectedIsLastConnectClose"
+        ELSE IF judged /\ (PureClose(m) \/ CloseAck(m)) /\ o.connected THEN "ConnectedIsLastConnectClose"
         ELSE IF judged /\ ~m.f.conn /\ ~m.f.close /\ o.connected # preConnected THEN "ConnectedIsLastConnectClose"
         ELSE IF judged /\ PureData(m) /\ m.payload = "rrs_req" /\
                 ~(Cardinality(Answers(o.sent)) = 1 /\ \A i \in Answers(o.sent) :
